@@ -300,7 +300,7 @@ def _campaign(ctx, scratch_root, mod_name, mod, pid, a, seed, t0):
         replay_paths = []
         if unlisted:
             os.makedirs(os.path.join(VERIF_DIR, 'replay'), exist_ok=True)
-            for vs in unlisted[6:60]:
+            for vs in unlisted[6:int(os.environ.get('GXV_MAX_PRINT', '60'))]:
                 print(f'violation(more) clause={vs[0]["clause"]} sig={vs[0]["sig"]} occurrences={len(vs)} detail={json.dumps(vs[0]["detail"], default=repr)[:300]}')
             for vs in unlisted[:6]:
                 v = vs[0]
